@@ -529,6 +529,8 @@ class MarkdownNormalizer(Renderer):
         return result
 
     def render_thematic_break(self, _element: block.ThematicBreak) -> str:
+        # Reset the skip flag since we're not rendering a blank line
+        self._skip_next_blank_line = False
         # Directly after a `*` bullet, `* * *` would join the marker into one thematic
         # break (`* * * *`) and the list item would disappear.
         rule = "- - -" if self._prefix.rstrip().endswith("*") else "* * *"
@@ -590,6 +592,8 @@ class MarkdownNormalizer(Renderer):
         """Render a standard link reference definition:
         [label]: url "title"
         """
+        # Reset the skip flag since we're not rendering a blank line
+        self._skip_next_blank_line = False
         link_text = element.dest
         if element.title:
             link_text += f" {_normalize_title_quotes(element.title)}"
@@ -734,6 +738,8 @@ class MarkdownNormalizer(Renderer):
         Render a GFM table. Does not do whitespace padding and normalizes
         the delimiters to use three dashes consistently.
         """
+        # Reset the skip flag since we're not rendering a blank line
+        self._skip_next_blank_line = False
         lines: list[str] = []
         head, *body = element.children
         # Rows carry the container prefix (list indent, `> `) like every other block.
